@@ -626,6 +626,48 @@ pub fn cases(tier: Tier) -> Vec<Case> {
         let nv = if m.n == 4 { 2 } else { nvals };
         out.push(Case::Explore { market: m, nvals: nv });
     }
+    // histories on large markets (chain, star, caterpillar on 10, 12, 13 currencies): EVERY action sequence of length
+    // <= 2 (thorough: 3) over a reduced alphabet, run with the same transition function and oracles as the BFS
+    for n in [10usize, 12, 13] {
+        let m = n - 1;
+        let shapes: Vec<Vec<(usize, usize)>> = vec![
+            (0..m).map(|i| if i % 2 == 0 { (i, i + 1) } else { (i + 1, i) }).collect(),
+            (0..m).map(|i| if i % 3 == 0 { (i + 1, 0) } else { (0, i + 1) }).collect(),
+            (0..m).map(|i| if i < m / 2 { (i, i + 1) } else { (i - m / 2, i + 1) }).collect(),
+        ];
+        for (si, q) in shapes.into_iter().enumerate() {
+            let market = Market { n, quotes: q, settle: si == 1, base: if si == 2 { Some(n - 1) } else { None } };
+            let alphabet: Vec<Act> = vec![
+                Act::Update { items: vec![(0, 1)], form: 0 },
+                Act::Update { items: vec![(m - 1, 2)], form: 1 },
+                Act::Update { items: vec![(m / 2, 1)], form: 2 },
+                Act::Update { items: (0..m).map(|i| (i, 1 + (i % 2) as u8)).collect(), form: 0 },
+                Act::Update { items: (0..m).map(|i| (i, 0)).collect(), form: 1 },
+                Act::BadUpdate(1),
+                Act::BadUpdate(4),
+                Act::SetOrder(0),
+                Act::SetOrder(1),
+                Act::SetOrder(2),
+            ];
+            let maxlen = tier.pick(2usize, 3usize);
+            let mut frontier: Vec<Vec<Act>> = vec![vec![]];
+            for _ in 0..maxlen {
+                let mut next = vec![];
+                for f in frontier.iter() {
+                    for a in alphabet.iter() {
+                        let mut t = f.clone();
+                        t.push(a.clone());
+                        next.push(t);
+                    }
+                }
+                frontier = next;
+            }
+            // sequences of exactly maxlen actions cover all shorter ones as prefixes (every step is judged)
+            for actions in frontier {
+                out.push(Case::History { market: market.clone(), nvals: 3, actions });
+            }
+        }
+    }
     // E1, larger markets on a menu: chain, star and caterpillar on 8, 10, 11, 12, 13 currencies with quote-form
     // patterns (all floats, all Duals, all Dual2s, a single pre-tagged dual quote at the first / middle / last position)
     for n in [8usize, 10, 11, 12, 13] {
@@ -708,12 +750,13 @@ pub fn run(ctx: &Ctx, replay_file: Option<String>) -> ! {
          content unchanged; set_ad_order sets the kind and changes no value by more than 4 ulp; in every state the \
          stored quotes are the latest ones and all rates equal (1e-12; as dual numbers by name at order 1 and 2) those \
          of FXRates::try_new(latest quotes, same base). The search runs to the fixpoint (frontier empty), so histories \
-         of every length over this action menu are covered. E1 (sensitivities): every labelled tree on 2..4 (5) \
+         of every length over this action menu are covered. Large markets (chain, star, caterpillar on 10, 12, 13 currencies) are not searched to a fixpoint: \
+         EVERY action sequence of length 2 (3) over a ten-action alphabet (single / all-quote updates in the three forms, two refused updates, three order switches) is run through the same transition function and oracles. E1 (sensitivities): every labelled tree on 2..4 (5) \
          currencies x orientation x quote form (float / Dual / Dual2 with own variable) x base x order 1/2: variable \
          names fx_<pair> or the quote's own; d r/d q = s r/q on the path and 0 off it; second derivatives \
          s(s-1) r/q^2 and s_e s_f r/(q_e q_f); read back by name. Larger markets on a menu: chain, star and caterpillar on 8, 10, 11, 12, 13 currencies with \
          quote-form patterns (all floats / Duals / Dual2s, one pre-tagged dual quote at the first, middle or last position).",
-        json!({"markets_explored": nexp, "fixpoints_reached": fix, "sensitivity_cases": cs.len() as u64 - nexp}),
+        json!({"markets_explored": nexp, "fixpoints_reached": fix, "large_market_histories": cs.iter().filter(|c| matches!(c, Case::History { .. })).count(), "sensitivity_cases": cs.iter().filter(|c| matches!(c, Case::Sens { .. })).count()}),
     );
     meta.level = "model_checking";
     meta = meta
